@@ -39,6 +39,7 @@ int env_left = ENV_STEPS;
 int long_wait_mine;          /* MU_LONG_WAIT was set by this thread and not yet cleared */
 int ever_slept;              /* this thread has slept on the mutex during the call */
 int sleeps;                  /* number of times it went to sleep */
+int c14_in_lock;             /* inside nsync_mu_lock / nsync_mu_rlock (C14 obligations on the queueing) */
 waiter Q[NQ];
 waiter MEW;                  /* this thread's waiter record: the per-thread cache of nsync_waiter_new_ is pre-seeded with it */
 #define me (&MEW)
@@ -122,8 +123,19 @@ void vf_guar (void *addr, uint32_t o, uint32_t n) {
 		} else {
 			vf_assert (rn == ro);                                      /* C01/C16: a stale word was written back (reader count jumped) */
 		}
-		if ((o & MU_SPINLOCK) == 0 && (n & MU_SPINLOCK) != 0) { vf_assert (!g_spin); g_spin = 1; }
-		else if ((o & MU_SPINLOCK) != 0 && (n & MU_SPINLOCK) == 0) { vf_assert (g_spin); g_spin = 0; }   /* spinlock released only by its holder */
+		if ((o & MU_SPINLOCK) == 0 && (n & MU_SPINLOCK) != 0) {
+			vf_assert (!g_spin); g_spin = 1;
+			/* C14 (2): a locker that has been woken LONG_WAIT_THRESHOLD times without acquiring announces it when it queues itself again */
+			if (c14_in_lock && g_mode == M_NONE && sleeps >= LONG_WAIT_THRESHOLD) { vf_assert ((n & MU_LONG_WAIT) != 0); }
+		}
+		else if ((o & MU_SPINLOCK) != 0 && (n & MU_SPINLOCK) == 0) {
+			vf_assert (g_spin); g_spin = 0;                             /* spinlock released only by its holder */
+			/* C14 (3): a thread that has slept before re-queues itself at the FRONT of the queue, a first-time sleeper at the back */
+			if (c14_in_lock && *(uint32_t *) &me->nw.waiting != 0) {
+				if (sleeps >= 1) { vf_assert (nsync_dll_first_ (MU.waiters) == &me->nw.q); }
+				else { vf_assert (nsync_dll_last_ (MU.waiters) == &me->nw.q); }
+			}
+		}
 		/* C14 */
 		if (acquired && (o & MU_LONG_WAIT) != 0 && !long_wait_mine) { vf_assert (ever_slept); }   /* (1) a thread that has not waited never acquires past MU_LONG_WAIT */
 		if ((o & MU_LONG_WAIT) == 0 && (n & MU_LONG_WAIT) != 0) { long_wait_mine = 1; }
@@ -210,6 +222,15 @@ void h_cv_signal (void) {     /* C01: a signaller (holding the mutex in any mode
 	setup (k); setup_cv ();
 	if (vf_nondet_nv () & 1) { nsync_cv_signal (&CV); } else { nsync_cv_broadcast (&CV); }
 	vf_assert (g_mode == (int) k && !g_spin && !g_cvspin);
+}
+/* C14: the mutex stays busy (writer-held for a writer victim, or writer-held/reader-held), so the victim is sent back to sleep again and again */
+void h_lock_long (void) {
+	unsigned k = vf_nondet_nv ();
+	setup (M_NONE);
+	c14_in_lock = 1;
+	if (k & 1) { nsync_mu_lock (&MU); vf_assert (g_mode == M_W); } else { nsync_mu_rlock (&MU); vf_assert (g_mode == M_R); }
+	c14_in_lock = 0;
+	vf_assert (!long_wait_mine);          /* whoever set MU_LONG_WAIT has cleared it on acquiring */
 }
 char dbuf[4];
 void h_cv_debug (void) {      /* C16: the cv debug-state functions only observe */
